@@ -222,7 +222,7 @@ def one(args):
         for prop in order_for(mu["file"]):
             t0 = time.time()
             try:
-                q = subprocess.run([os.path.join(VERIF, "check"), prop], cwd=VERIF, env=cenv, capture_output=True, text=True, timeout=1500)
+                q = subprocess.run([os.path.join(VERIF, "check"), prop], cwd=VERIF, env=cenv, capture_output=True, text=True, timeout=300)
                 rc, outp = q.returncode, q.stdout
             except subprocess.TimeoutExpired:
                 rc, outp = 1, "VIOLATION (timeout: the change makes a replayed call hang)"
@@ -269,8 +269,9 @@ def run(jobs, limit, skip_trace, only_status=None):
     warm = dict(os.environ, VERIF_NO_EVIDENCE="1", VERIF_TLC_CACHE=os.path.join(WORK, "tlccache"))
     if skip_trace:
         warm["VERIF_SKIP_TRACE"] = "1"
-    for prop in PROPS:
-        subprocess.run([os.path.join(VERIF, "check"), prop], cwd=VERIF, env=warm, capture_output=True, text=True)
+    if not os.path.isdir(os.path.join(WORK, "tlccache")) or len(os.listdir(os.path.join(WORK, "tlccache"))) < 20:
+        for prop in PROPS:
+            subprocess.run([os.path.join(VERIF, "check"), prop], cwd=VERIF, env=warm, capture_output=True, text=True)
     with cf.ThreadPoolExecutor(max_workers=jobs) as ex, open(rp, "a") as fo:
         slots = list(range(jobs))
         import queue
@@ -284,7 +285,9 @@ def run(jobs, limit, skip_trace, only_status=None):
                 return one((w, mu, skip_trace))
             finally:
                 q.put(w)
-        for n, rec in enumerate(ex.map(task, todo)):
+        futs = [ex.submit(task, mu) for mu in todo]
+        for n, fu in enumerate(cf.as_completed(futs)):
+            rec = fu.result()
             fo.write(json.dumps(rec) + "\n")
             fo.flush()
             if n % 20 == 0:
